@@ -272,6 +272,23 @@ Definition pi_lookup (st : pindex) (now : Z) (needed : list N) : pindex * option
         else (st', None)
   end.
 
+(* DNS64 (middleware/dns64 responseWriter.synthesise) composing from what the
+   cache below it served: the AAAA NODATA answer and the A answer of the
+   sub-query.  A piece is either fresh from downstream (its upstream TTLs) or a
+   cache hit (every record at shown_ttl).  TTLs are seconds. *)
+Inductive piece := PFresh (ttl : Z) | PHit (e : entry).
+Definition piece_ttl (p : piece) (now : Z) : Z :=
+  match p with PFresh t => t | PHit e => shown_ttl e now end.
+(* negativeAAAATTL: min(SOA TTL as served, SOA MINIMUM field), or no SOA *)
+Definition dns64_neg (neg : option (piece * Z)) (now : Z) : Z :=
+  match neg with
+  | Some (p, minimum) => let t := piece_ttl p now in if minimum <? t then minimum else t
+  | None => dns64_no_soa_ceiling
+  end.
+(* the synthesised TTL: min over the negative TTL and every A record *)
+Definition dns64_ttl (neg : option (piece * Z)) (addrs : list piece) (now : Z) : Z :=
+  fold_left (fun cur p => let t := piece_ttl p now in if t <? cur then t else cur) addrs (dns64_neg neg now).
+
 (* ------------------------------------------------------------------ *)
 (** * 5. The store: set / remove / pointer-CAS                          *)
 
